@@ -122,7 +122,17 @@ class _Transform(ast.NodeTransformer):
     visit_ClassDef = _def
 
     def visit_FunctionDef(self, node):
-        return self._def(node)
+        # local variables of the function (parameters and every name it stores): a loop contract may replace the value of any
+        # local the loop reads (e.g. a list the loop appends to) -- never a global or builtin name
+        a = node.args
+        params = [x.arg for x in a.posonlyargs + a.args + a.kwonlyargs] + [x.arg for x in (a.vararg, a.kwarg) if x]
+        glob = {n for s in ast.walk(node) if isinstance(s, (ast.Global, ast.Nonlocal)) for n in s.names}
+        self.fn_locals = getattr(self, "fn_locals", [])
+        self.fn_locals.append((set(params) | _assigned_names(node)) - glob)
+        try:
+            return self._def(node)
+        finally:
+            self.fn_locals.pop()
 
     def visit_BinOp(self, node):
         self.generic_visit(node)
@@ -155,7 +165,7 @@ class _Transform(ast.NodeTransformer):
             return node
         self.bound.add(key)
         lid = self.loops[key]
-        return _encode_loop(node, lid)
+        return _encode_loop(node, lid, self.fn_locals[-1] if getattr(self, "fn_locals", None) else set())
 
     visit_While = _loop
     visit_For = _loop
@@ -189,7 +199,7 @@ def _back_edge(lid):
     return ast.Expr(value=_call("__pyvc_loop_back__", ast.Constant(lid), _locals()))
 
 
-def _encode_loop(node, lid):
+def _encode_loop(node, lid, fn_locals=frozenset()):
     """while/for with contract -> invariant encoding (see module docstring, T2)"""
     if node.orelse:
         raise BindingError("loop with else clause cannot carry a contract")
@@ -215,12 +225,13 @@ def _encode_loop(node, lid):
     loaded = sorted({n.id for n in ast.walk(node) if isinstance(n, ast.Name) and isinstance(n.ctx, ast.Load)})
     enter = ast.Expr(value=_call("__pyvc_loop_enter__", ast.Constant(lid), _locals(),
                                  ast.List(elts=[ast.Constant(n) for n in loaded], ctx=ast.Load())))
-    names = _assigned_names(node)
+    names = _assigned_names(node) | (set(loaded) & set(fn_locals))
     hav = []
+    assigned = _assigned_names(node)
     for nm in sorted(names):
         hav.append(ast.Assign(
             targets=[ast.Name(id=nm, ctx=ast.Store())],
-            value=_call("__pyvc_loop_havoc__", ast.Constant(lid), ast.Constant(nm), _locals())))
+            value=_call("__pyvc_loop_havoc__", ast.Constant(lid), ast.Constant(nm), _locals(), ast.Constant(nm in assigned))))
     assume = ast.Expr(value=_call("__pyvc_loop_assume__", ast.Constant(lid), _locals()))
     inner = ast.While(
         test=ast.Constant(True),
